@@ -29,7 +29,7 @@ for name in sorted(os.listdir(os.path.join(VERIF, 'seeded'))):
                 if p in KXP and p != pid:
                     continue
                 r = subprocess.run([os.path.join(VERIF, 'check'), p, '--no-evidence', '--src', scratch], capture_output=True, text=True, cwd=VERIF)
-                obl = sorted(set(re.findall(r'replay=/verif/replay/%s-([^ ]+?)\.json' % p, r.stdout)))
+                obl = sorted(set(re.findall(r'replay=\S*/replay/%s-([^ ]+?)\.json' % p, r.stdout)))
                 res[p] = {'exit': r.returncode, 'verdict': {0: 'quiet', 1: 'VIOLATION', 2: 'undecided'}.get(r.returncode, '?'), 'obligations': obl[:6]}
         finally:
             subprocess.run(['rm', '-rf', scratch])
